@@ -686,7 +686,7 @@ func c14upSettle(v *vCore) {
 	// the conversion goroutine either stopped at the fault or goes on for a few
 	// operations; wait for the store to go quiet (bounded). Only the workload
 	// depends on this, never a verdict.
-	v.WaitQuiet(120*time.Millisecond, 4*time.Second)
+	v.WaitQuiet(70*time.Millisecond, 4*time.Second)
 }
 
 func TestVerif_C14_Upgrade(t *testing.T) {
